@@ -50,7 +50,8 @@ class Harness:
     def run(self, lines):
         outs = self.h.run(lines)
         for attempt in range(2):
-            bad = [i for i, (l, o) in enumerate(zip(lines, outs)) if oracle(l, o) or o.startswith("abort:io") or suspicious(l, o)]
+            bad = [i for i, (l, o) in enumerate(zip(lines, outs))
+                   if (oracle(l, o) and not classify(l, o, oracle(l, o))) or o.startswith("abort:io") or suspicious(l, o)]
             if not bad or len(bad) > 40:
                 break
             if not self.h.squid.alive():
@@ -334,7 +335,7 @@ ERRS = ["e500", "e404", "e503", "e400", "e302", "e999"]
 def cuts_for(rng, act, al):
     if act in ("204",) or re.fullmatch(r"e\d+", act):
         return ["i1", "i%d" % rng.range(2, 40), "i60"]
-    c = ["i1", "i%d" % rng.range(2, 60), "t1", "t%d" % rng.range(2, 40), "t9999"]
+    c = ["i1", "i%d" % rng.range(2, 60), "t1", "t%d" % rng.range(2, 40), "t9999"]    # t9999 = all but the last byte of the adapted head
     if act != "200n":
         c += ["b0", "b1", "z", "y"]
         if al > 2:
